@@ -632,10 +632,10 @@ static int Campaign(const Inputs& in, const fs::path& scratch, bool big, Totals&
     // ---------------------------------------------------------------- scenarios and background validation (each in a fork)
     struct Scen { std::string name; std::function<void(fp::Out&)> run; };
     std::vector<Scen> scens;
-    auto expect_reject = [&](fp::Out& out, const std::string& name, const Bytes& file, const std::string& what) {
+    auto expect_reject = [&](fp::Out& out, const std::string& name, const Bytes& file, const std::string& what, bool in_memory = false) {
         auto before = w.Observe();
         std::string why;
-        auto r = w.Attempt(file, false, &why);
+        auto r = w.Attempt(file, in_memory, &why);
         out.count("scenario_cases");
         if (r == World::ACTIVATED) { out.violation(TAG + ":" + "scenario:" + name, "snapshot activated although " + what, "scenario " + name); return; }
         out.count("scenario_rejected");
@@ -649,6 +649,37 @@ static int Campaign(const Inputs& in, const fs::path& scratch, bool big, Totals&
     scens.push_back({"base-marked-invalid", [&](fp::Out& o) { if (!T.Invalidate(blocks[110].GetHash())) throw std::runtime_error("invalidate"); expect_reject(o, "base-marked-invalid", s110, "its base block is marked invalid"); }});
     scens.push_back({"base-ancestor-marked-invalid", [&](fp::Out& o) { if (!T.Invalidate(blocks[105].GetHash())) throw std::runtime_error("invalidate"); expect_reject(o, "base-ancestor-marked-invalid", s110, "an ancestor of its base block is marked invalid"); }});
     scens.push_back({"equal-work-tip-at-base", [&](fp::Out& o) { feed(101, 110); if (T.height() != 110) throw std::runtime_error("feed"); expect_reject(o, "equal-work-tip-at-base", s110, "the active tip already is the base block (no more work)"); }});
+    // A different block at the committed height that leaves the identical UTXO set: block 110's transactions under
+    // another header (time + 1, new nonce), made the most-work header chain by one child header. The genuine coin
+    // data with this twin named as base must be refused: the commitment is to the block hash, not to the height.
+    scens.push_back({"twin-block-at-committed-height", [&](fp::Out& o) {
+        CBlock tw = blocks[110];
+        tw.nTime += 1;
+        tw.nNonce = 0;
+        ck::Grind(tw, Params().GetConsensus());
+        CBlockHeader child;
+        child.nVersion = tw.nVersion;
+        child.hashPrevBlock = tw.GetHash();
+        child.hashMerkleRoot = uint256{7};
+        child.nTime = tw.nTime + 1;
+        child.nBits = tw.nBits;
+        child.nNonce = 0;
+        ck::Grind(child, Params().GetConsensus());
+        BlockValidationState st1, st2;
+        if (tw.GetHash() == blocks[110].GetHash() || !T.ProcessHeader(tw, st1) || !T.ProcessHeader(child, st2)) throw std::runtime_error("C20: twin headers rejected: " + st1.ToString() + " " + st2.ToString());
+        {
+            LOCK(cs_main);
+            const CBlockIndex* twi = T.chainman().m_blockman.LookupBlockIndex(tw.GetHash());
+            if (!twi || twi->nHeight != 110 || !T.chainman().m_best_header || T.chainman().m_best_header->GetBlockHash() != child.GetHash()) throw std::runtime_error("C20: twin chain is not the best header chain");
+        }
+        Snap s = w.orig.s;
+        uint256 th = tw.GetHash();
+        s.base_hash = Bytes(th.begin(), th.end());
+        Bytes file = Encode(s);
+        const std::string what = "its base is a different block at the assumeutxo height (same transactions and UTXO set, other header), not the committed block";
+        expect_reject(o, "twin-block-at-committed-height:mem", file, what, true);
+        expect_reject(o, "twin-block-at-committed-height:disk", file, what, false);
+    }});
     scens.push_back({"less-work-than-tip", [&](fp::Out& o) { feed(101, 111); if (T.height() != 111) throw std::runtime_error("feed"); expect_reject(o, "less-work-than-tip", s110, "the active tip has more work than the base block"); }});
     // positive control + second activation + background validation of the genuine snapshot
     scens.push_back({"genuine-then-background-validation", [&](fp::Out& o) {
@@ -914,7 +945,7 @@ static int Run()
     for (auto& [k, v] : tot.flip_offsets) E.set("flip_offsets." + k, (uint64_t)v);
     E.rule = std::string("two valid regtest snapshots written by the real dump code at height 110: 'tc' = the TestChain100Setup chain (genuine chainparams commitment, 110 coinbase coins), 'rich' = a chainkit chain with multi-output txids, spent siblings, non-coinbase coins, a 3-byte output index, zero amounts and every compressed script form but uncompressed keys (commitment re-pointed at the reference hash of the dump). Cases per snapshot: ") + (big ? "every byte" : "every byte of the metadata header, of the first ~3 and of the last coin record") +
              " x {xor 0x01, xor 0x80}; every truncation length 0..size-1; 1-3 appended bytes (00/ff); structured single-field edits (count, base hash, version, magics; per coin " + (big ? "(all txid groups)" : "(5 groups + every multi-output group)") +
-             ": height, coinbase bit, amount, script, index, txid, removed, added / dropped / swapped / exchanged outputs, emptied or split group; extra / duplicated / conflicting-duplicate / reordered / re-encoded coins); scenarios (unknown base header, non-assumeutxo heights 100 and 111 [tc], invalid base, invalid ancestor, equal work, less work, second activation, genuine snapshot + background validation of blocks 101..110, 6 doctored self-consistent snapshots with re-pointed commitment + background validation [tc]). "
+             ": height, coinbase bit, amount, script, index, txid, removed, added / dropped / swapped / exchanged outputs, emptied or split group; extra / duplicated / conflicting-duplicate / reordered / re-encoded coins); scenarios (unknown base header, non-assumeutxo heights 100 and 111 [tc], a twin of block 110 (same transactions, other header) on the best header chain named as base [in-memory and on-disk], invalid base, invalid ancestor, equal work, less work, second activation, genuine snapshot + background validation of blocks 101..110, 6 doctored self-consistent snapshots with re-pointed commitment + background validation [tc]). "
              "Each case = real SnapshotMetadata deserialisation + ChainstateManager::ActivateSnapshot on a live regtest node in IBD. distinct_nontrivial = distinct cases that had to be rejected and were (with tip, chainstates, active UTXO set and datadir verified unchanged).";
     E.assume("the reference decoder treats the uncompressed-public-key script forms (types 4/5) as opaque; the snapshots used contain none");
     E.assume("SHA256d collisions are not reachable by the enumerated edits");
@@ -925,7 +956,7 @@ static int Run()
         g &= need(counts[t + ".rejected_at_metadata"] > 0 && counts[t + ".rejected_by_activate"] > 0 && counts[t + ".rejected_on_disk"] > 0, t + ": every rejection stage must occur");
         g &= need(counts[t + ".same_set_accepted"] > 0, t + ": no set-preserving re-encoding was accepted (positive path never taken)");
         g &= need(counts[t + ".genuine_accepted"] == 1 && counts[t + ".background_validated"] == 1, t + ": genuine snapshot + background validation did not succeed");
-        g &= need(counts[t + ".scenario_rejected"] >= (t == "tc" ? 8u : 6u), t + ": scenarios missing");
+        g &= need(counts[t + ".scenario_rejected"] >= (t == "tc" ? 10u : 8u), t + ": scenarios missing");
         if (counts[t + ".harness_not_single_threaded"]) { printf("HARNESS-ERROR C20: a process that had to fork was not single-threaded (%s)\n", t.c_str()); g = false; }
     }
     g &= need(counts["tc.background_mismatch_detected"] == 6, "not every doctored snapshot was caught by background validation");
